@@ -9,6 +9,9 @@ the handles in ascending order. (The executable model fixes ascending iteration 
 the repetition check of C17 runs every scenario three times with fresh hash states.)
 -/
 import GgrsModel.Model.P2P
+import GgrsModel.Model.SyncTest
+import GgrsModel.Proofs.Monad
+import GgrsModel.Proofs.Queue
 
 namespace Ggrs.Endpoint
 
@@ -77,3 +80,149 @@ theorem C17_from_inputs_order (numPlayers : Nat) (inputs inputs' : List (Nat × 
   exact key _ _ _
 
 end Ggrs.Endpoint
+
+namespace Ggrs
+
+/-- Two local inputs for different players go into the sync layer in either order. -/
+theorem addLocalInput_swap (sy sy1 sy2 : SyncLayer) (h1 h2 : Nat) (i1 i2 : PlayerInput) (f1 f2 : Frame)
+    (hne : h1 ≠ h2) (ha : sy.addLocalInput h1 i1 = .ok (sy1, f1)) (hb : sy1.addLocalInput h2 i2 = .ok (sy2, f2)) :
+    ∃ sy1', sy.addLocalInput h2 i2 = .ok (sy1', f2) ∧ sy1'.addLocalInput h1 i1 = .ok (sy2, f1) := by
+  unfold SyncLayer.addLocalInput at ha hb
+  obtain ⟨hfa, ha⟩ := ensure_bind_ok ha
+  obtain ⟨hla, ha⟩ := ensure_bind_ok ha
+  obtain ⟨ra, hqa, ha⟩ := bind_ok ha
+  obtain ⟨qa, fa⟩ := ra
+  have ha := pure_ok ha
+  simp only [Prod.mk.injEq] at ha
+  obtain ⟨hsy1, hf1⟩ := ha
+  subst hsy1
+  obtain ⟨hfb, hb⟩ := ensure_bind_ok hb
+  obtain ⟨hlb, hb⟩ := ensure_bind_ok hb
+  obtain ⟨rb, hqb, hb⟩ := bind_ok hb
+  obtain ⟨qb, fb⟩ := rb
+  have hb := pure_ok hb
+  simp only [Prod.mk.injEq] at hb
+  obtain ⟨hsy2, hf2⟩ := hb
+  simp only at hfb hlb hqb hsy2 hf1 hf2
+  have hl1 : h1 < sy.queues.length := of_decide_eq_true hla
+  have hl2 : h2 < sy.queues.length := by
+    have : h2 < (rset sy.queues h1 qa).length := of_decide_eq_true hlb
+    rwa [rset_length] at this
+  have hg2 : rget (rset sy.queues h1 qa) h2 = rget sy.queues h2 := rget_rset_ne _ _ _ _ hne
+  rw [hg2] at hqb
+  refine ⟨{ sy with queues := rset sy.queues h2 qb }, ?_, ?_⟩
+  · unfold SyncLayer.addLocalInput
+    simp only [ensure, hfb, hl2, decide_true, if_true, bind, Except.bind, hqb, pure, Except.pure, hf2]
+  · unfold SyncLayer.addLocalInput
+    have hg1 : rget (rset sy.queues h2 qb) h1 = rget sy.queues h1 := rget_rset_ne _ _ _ _ (fun e => hne e.symm)
+    have hl1' : h1 < (rset sy.queues h2 qb).length := by rw [rset_length]; exact hl1
+    simp only [ensure, hfa, hl1', decide_true, if_true, bind, Except.bind, hg1, hqa, pure, Except.pure, hf1]
+    rw [← hsy2]
+    congr 3
+    simp only [rset]
+    exact (List.set_comm _ _ hne).symm
+
+/-- **C17, sync test.** `SyncTestSession::advance_frame` walks its `HashMap` of local inputs in hash
+order; the model walks a list. Whatever the order, the sync layer ends up in the same state: any
+permutation of the entries (one per player) gives the same result. -/
+theorem C17_synctest_input_order (l l' : List (Nat × PlayerInput)) (hperm : l.Perm l')
+    (hnd : l.Pairwise (fun a b => a.1 ≠ b.1)) (sy r : SyncLayer)
+    (h : SyncTest.addLocalInputs l sy = .ok r) : SyncTest.addLocalInputs l' sy = .ok r := by
+  induction hperm generalizing sy with
+  | nil => exact h
+  | cons x _ ih =>
+    obtain ⟨hd, inp⟩ := x
+    simp only [SyncTest.addLocalInputs] at h ⊢
+    obtain ⟨r1, h1, h⟩ := bind_ok h
+    obtain ⟨sy1, f1⟩ := r1
+    simp only at h
+    have hp := List.pairwise_cons.mp hnd
+    simp only [bind, Except.bind, h1]
+    exact ih hp.2 sy1 h
+  | swap x y l =>
+    obtain ⟨hx, ix⟩ := x
+    obtain ⟨hy, iy⟩ := y
+    simp only [SyncTest.addLocalInputs] at h ⊢
+    obtain ⟨r1, h1, h⟩ := bind_ok h
+    obtain ⟨sy1, f1⟩ := r1
+    simp only at h
+    obtain ⟨r2, h2, h⟩ := bind_ok h
+    obtain ⟨sy2, f2⟩ := r2
+    simp only at h
+    have hp := List.pairwise_cons.mp hnd
+    have hne : hy ≠ hx := hp.1 (hx, ix) List.mem_cons_self
+    obtain ⟨sy1', ha, hb⟩ := addLocalInput_swap sy sy1 sy2 hy hx iy ix f1 f2 hne h1 h2
+    simp only [bind, Except.bind, ha, hb]
+    exact h
+  | trans p1 _ ih1 ih2 =>
+    have hnd2 := (List.Perm.pairwise_iff (fun {a b} (hab : a.1 ≠ b.1) => fun hba => hab hba.symm) p1).mp hnd
+    exact ih2 hnd2 sy (ih1 hnd sy h)
+
+/-- **C17, disconnect gossip.** `update_player_disconnects` combines what the running endpoints
+report about a player by walking the `HashMap` of remotes; the combination (AND of "connected",
+minimum of the last frames) does not depend on the order of the walk. -/
+theorem C17_gossip_order (remotes remotes' : List (Nat × Endpoint)) (hperm : remotes.Perm remotes') (handle : Nat) :
+    P2P.gossipOf remotes handle = P2P.gossipOf remotes' handle := by
+  unfold P2P.gossipOf
+  apply List.Perm.foldl_eq' hperm
+  intro x _ y _ z
+  unfold P2P.gossipStep
+  by_cases hx : (!x.2.isRunning) = true <;> by_cases hy : (!y.2.isRunning) = true <;>
+    simp only [hx, hy, if_true, if_false, Bool.false_eq_true]
+  apply Prod.ext
+  · simp only [Bool.and_assoc]
+    rw [Bool.and_comm (!(rget x.2.peerConnectStatus handle).disconnected)]
+  · simp only
+    omega
+
+/-- What one endpoint contributes to `max_frame_advantage`: its average, if it serves at least one
+player that is still connected (`g` folds the average into the running maximum; doing so twice
+changes nothing). -/
+theorem advantage_inner (cond : Nat → Bool) (g : Option Int → Int) (hidem : ∀ m, g (some (g m)) = g m) :
+    ∀ (hs : List Nat) (m : Option Int),
+    hs.foldl (fun m h => if cond h = true then some (g m) else m) m = if hs.any cond = true then some (g m) else m := by
+  intro hs
+  induction hs with
+  | nil => intro m; simp
+  | cons h rest ih =>
+    intro m
+    simp only [List.foldl_cons, List.any_cons]
+    rw [ih]
+    by_cases hc : cond h = true
+    · simp only [hc, if_true, Bool.true_or]
+      by_cases hr : rest.any cond = true
+      · simp only [hr, if_true, hidem]
+      · simp only [hr, Bool.false_eq_true, if_false]
+    · simp only [hc, Bool.false_eq_true, if_false, Bool.false_or]
+
+/-- **C17, frame advantage.** `max_frame_advantage` walks the `HashMap` of remotes; the maximum it
+computes (and with it `frames_ahead` and every WaitRecommendation) does not depend on the order. -/
+theorem C17_frame_advantage_order (s s' : P2P) (hperm : s.remotes.Perm s'.remotes)
+    (hst : s'.localConnectStatus = s.localConnectStatus) : s'.maxFrameAdvantage = s.maxFrameAdvantage := by
+  simp only [P2P.maxFrameAdvantage]
+  rw [hst]
+  congr 1
+  symm
+  apply List.Perm.foldl_eq' hperm
+  intro x _ y _ z
+  obtain ⟨ax, ex⟩ := x
+  obtain ⟨ay, ey⟩ := y
+  simp only []
+  have hid : ∀ (a : Int) (m : Option Int),
+      (match (some (match m with | none => a | some x => max x a) : Option Int) with | none => a | some x => max x a) =
+      (match m with | none => a | some x => max x a) := by
+    intro a m
+    cases m with
+    | none => simp
+    | some v => simp only; omega
+  repeat (first
+    | rw [advantage_inner (fun h => !(rget s.localConnectStatus h).disconnected) _ (hid ex.timeSync.averageFrameAdvantage)]
+    | rw [advantage_inner (fun h => !(rget s.localConnectStatus h).disconnected) _ (hid ey.timeSync.averageFrameAdvantage)])
+  by_cases hx : ex.handles.any (fun h => !(rget s.localConnectStatus h).disconnected) = true <;>
+  by_cases hy : ey.handles.any (fun h => !(rget s.localConnectStatus h).disconnected) = true <;>
+    simp only [hx, hy, if_true, if_false, Bool.false_eq_true]
+  cases z with
+  | none => simp only [Option.some.injEq]; omega
+  | some v => simp only [Option.some.injEq]; omega
+
+end Ggrs
